@@ -270,6 +270,13 @@ Theorem C19_from_dataframe_contract (c : mclass) (t : table) (m : fmodel) :
 Proof. exact (from_table_char c t m). Qed.
 Print Assumptions C19_from_dataframe_contract.
 
+(* from_dataframe(data, *args): __init__ has the span as its only positional parameter, so every extra positional argument
+   is a TypeError raised at the call, whatever the table; with none the call is from_dataframe proper *)
+Theorem C19_from_dataframe_extra_positional (n : nat) (c : mclass) (t : table) :
+  from_dataframe_call n c t = (if Nat.eqb n 0 then from_table c t else TErr TypeError).
+Proof. exact (from_dataframe_call_spec n c t). Qed.
+Print Assumptions C19_from_dataframe_extra_positional.
+
 (* ... and when it raises, the class is DuplicateNameError (NAMES), InitialisationError (strict), ValueError or TypeError (cast) *)
 Theorem C19_from_dataframe_errors (c : mclass) (t : table) (e : exn) :
   from_table c t = TErr e ->
